@@ -320,6 +320,58 @@ func init() {
 		return []TextEdit{p.editReplace(sel, "o.trafficSeen <- struct{}{}")}, nil
 	}})
 	ctl("update2 handler takes rpcMutex", "L-RPC", "holding client.ovsdbClient.rpcMutex/R needed by handler update2", "client", "ovsdbClient", "update2", kStmt, "db.cacheMutex.Lock()", 0, before("o.rpcMutex.Lock()\no.rpcMutex.Unlock()"))
+	ctl("Delete skips a row whose update cannot be built", "ERR-USE", "Transaction).Delete|error of AddOperation", "database/transaction", "Transaction", "Delete", kStmt, "return ovsdb.ResultFromError(err), nil", 1, to("continue"))
+	registerControl(&ControlDef{Name: "set decoder keeps going after a bad element", Rule: "ERR-LOOP", Expect: "(*ovsdb.OvsSet).UnmarshalJSON|error of", Edit: func(p *Program) ([]TextEdit, error) {
+		fd, _, err := p.funcDecl("ovsdb", "OvsSet", "UnmarshalJSON")
+		if err != nil {
+			return nil, err
+		}
+		var loop ast.Node
+		ast.Inspect(fd.Body, func(n ast.Node) bool {
+			if rs, ok := n.(*ast.RangeStmt); ok && strings.Contains(p.text(rs.X), "innerSet") {
+				loop = rs
+			}
+			return true
+		})
+		if loop == nil {
+			return nil, fmt.Errorf("range over innerSet not found")
+		}
+		return []TextEdit{p.editReplace(loop, "for _, val := range innerSet {\nerr = addToSet(o, val)\n}")}, nil
+	}})
+	registerControl(&ControlDef{Name: "Populate takes the table lock shared", Rule: "L2", Expect: "(*cache.TableCache).Populate|cache.RowCache.cache read", Edit: func(p *Program) ([]TextEdit, error) {
+		a, err := locate(p, "cache", "TableCache", "Populate", kStmt, "t.mutex.Lock()", 0)
+		if err != nil {
+			return nil, err
+		}
+		b, err := locate(p, "cache", "TableCache", "Populate", kStmt, "defer t.mutex.Unlock()", 0)
+		if err != nil {
+			return nil, err
+		}
+		return []TextEdit{p.editReplace(a, "t.mutex.RLock()"), p.editReplace(b, "defer t.mutex.RUnlock()")}, nil
+	}})
+	registerControl(&ControlDef{Name: "Delete stages one shared set for all indexes", Rule: "X9", Expect: "(*cache.RowCache).Delete|set stored per index", Edit: func(p *Program) ([]TextEdit, error) {
+		a, err := locate(p, "cache", "RowCache", "Delete", kStmt, "removeIndexes := r.newIndexes()", 0)
+		if err != nil {
+			return nil, err
+		}
+		b, err := locate(p, "cache", "RowCache", "Delete", kExpr, "newUUIDSet(uuid)", 0)
+		if err != nil {
+			return nil, err
+		}
+		return []TextEdit{p.editReplace(a, "removeIndexes := r.newIndexes()\nshared := newUUIDSet(uuid)"), p.editReplace(b, "shared")}, nil
+	}})
+	ctl("substitution pass skips wait operations", "N-SKIP", "table of wait validated", "ovsdb", "", "ExpandNamedUUIDs", kStmt, "tableSchema := schema.Table(op.Table)", 0, before("if op.Op == OperationWait {\ncontinue\n}"))
+	registerControl(&ControlDef{Name: "non-clustered verdict taken before the database name is compared", Rule: "R-LEADER", Expect: "isEndpointLeader|verdict from our database's row", Edit: func(p *Program) ([]TextEdit, error) {
+		a, err := locate(p, "client", "ovsdbClient", "isEndpointLeader", kStmt, "dbName != o.primaryDBName", 0)
+		if err != nil {
+			return nil, err
+		}
+		b, err := locate(p, "client", "ovsdbClient", "isEndpointLeader", kStmt, "sid, ok := row[\"sid\"].(ovsdb.UUID)", 0)
+		if err != nil {
+			return nil, err
+		}
+		return []TextEdit{p.editReplace(a, ""), p.editReplace(b, "if dbName != o.primaryDBName {\ncontinue\n}\n"+p.text(b))}, nil
+	}})
 	ctl("lock taken before waiting for the handlers", "L-WAIT", "handleDisconnectNotification|WaitGroup.Wait", "client", "ovsdbClient", "handleDisconnectNotification", kStmt, "o.handlerShutdown.Wait()", 0, to("o.shutdownMutex.Lock()\no.handlerShutdown.Wait()\no.shutdownMutex.Unlock()"))
 	ctl("transact accepts an empty operation list", "G-ARGS", "at least one operation", "server", "OvsdbServer", "Transact", kExpr, "len(args) < 2", 0, to("len(args) < 1"))
 	ctl("delete-by-keys special case for every column", "P-NIL-TYPEOBJ", "addMutateOperation|deref", "updates", "ModelUpdates", "addMutateOperation", kExpr, `mutation.Mutator == "delete" && column.Type == ovsdb.TypeMap && reflect.TypeOf(mutation.Value) != reflect.TypeOf(ovsdb.OvsMap{})`, 0, to(`mutation.Mutator == "delete" && reflect.TypeOf(mutation.Value) != reflect.TypeOf(ovsdb.OvsMap{})`))
